@@ -1013,6 +1013,21 @@ func (s *sim) checkAccessors(box *stateBox, where string) {
 		}
 		s.res.Stat("setter_checks", 1)
 		after := s.rawOf(c)
+		// C05: the root reported after the write is the root of the INTENDED content built from scratch
+		// (the old content with this one field replaced), whatever the write did to the tree
+		if intended := s.rawOf(st); intended != nil {
+			f := reflect.ValueOf(intended).Elem().FieldByName(set.field)
+			if f.IsValid() && f.CanSet() && reflect.TypeOf(set.want).AssignableTo(f.Type()) {
+				f.Set(reflect.ValueOf(set.want))
+				if ir, ok := intended.(interface {
+					HashTreeRoot(spec *common.Spec, hFn tree.HashFn) common.Root
+				}); ok {
+					if r1, r2 := c.HashTreeRoot(hFn), ir.HashTreeRoot(s.w.spec, hFn); r1 != r2 {
+						s.viol("C05", "state/root-after-setter-vs-intended-content/"+set.field, fmt.Sprintf("%s (%s): after Set%s(%+v) the state reports root %s; the previous content with that field replaced, built from scratch, has root %s", where, forkName(st), set.field, set.want, r1, r2))
+					}
+				}
+			}
+		}
 		if got := fieldOf(after, set.field); !reflect.DeepEqual(got, set.want) {
 			s.viol("C15", "setter-value/"+set.field, fmt.Sprintf("%s (%s): Set%s(%+v): the state now holds %+v (before: %+v)", where, forkName(st), set.field, set.want, got, fieldOf(raw, set.field)))
 			return
